@@ -13,6 +13,7 @@
   finding F3 — without `--utf8-strings` no character above U+FFFF (`CharOK`): `printString` writes such a
   character as `\u` + FIVE hex digits, which reads back as a different string (witness proved below).
 -/
+import Jawk.Lemmas.Fixpoint
 import Jawk.Lemmas.RoundTrip
 import Jawk.Lemmas.F64RoundTrip
 import Jawk.Lemmas.ParseSer
@@ -75,5 +76,38 @@ theorem astral_escape_has_five_digits :
 
 /-! ### non-vacuity: a nested value with escapes, a float, non-ASCII — printable in every style -/
 example (o : JsonOpts) : Printable o sample := sample_printable o
+
+
+/-! ### the fixpoint, for whole runs (helper file `Jawk/Lemmas/Fixpoint.lean`) -/
+
+/-- a run with only output options (style, `--utf8-strings`, row separator) writes, for ANY input, one printed
+row per value read -/
+theorem run_output_only (orc : Oracles) (jo : Option JsonOpts) (sep : Str) (sources : List Source)
+    (wOut wErr : Writer) (hw : Pipe.Unbounded wOut) (hcl : RunSpec.CleanIO sources) :
+    (run orc (Fix.outCfg jo sep) sources wOut wErr).result = .ok ()
+      ∧ (run orc (Fix.outCfg jo sep) sources wOut wErr).stdout
+          = wOut.out ++ (RunSpec.ctxsOfSources (Fix.outCfg jo sep) sources 0).flatMap
+              (fun ctx => utf8 (printJson (jo.getD {}) ctx.input) ++ utf8 sep)
+      ∧ (run orc (Fix.outCfg jo sep) sources wOut wErr).stderr = wErr.out :=
+  Fix.run_output_only orc jo sep sources wOut wErr hw hcl
+
+/-- MAIN: feeding jawk's output back into jawk with the same options reproduces it byte for byte — for EVERY
+input (any bytes, malformed regions included, any number of sources), every style, every non-empty white-space
+row separator.  Assumptions: H17 and `--utf8-strings` (without it an astral character is the finding F3; the
+counter-example is an `example` in the helper file, as is a non-white-space separator) -/
+theorem fixpoint (h17 : Ser.H17) (orc : Oracles) (o : JsonOpts) (ho : o.utf8Strings = true) (sep : Str)
+    (hsep : Fix.WsSep sep) (hne : sep ≠ []) (sources : List Source) (hcl : RunSpec.CleanIO sources) :
+    (run orc (Fix.outCfg (some o) sep)
+        [⟨none, cleanInput (run orc (Fix.outCfg (some o) sep) sources {} {}).stdout⟩] {} {}).stdout
+      = (run orc (Fix.outCfg (some o) sep) sources {} {}).stdout :=
+  Fix.fixpoint_all h17 orc o ho sep hsep hne sources hcl
+
+/-- the same without H17 and without `--utf8-strings`, for inputs whose values are printable (`Printable`) -/
+theorem fixpoint_printable (orc : Oracles) (jo : Option JsonOpts) (sep : Str) (hsep : Fix.WsSep sep) (hne : sep ≠ [])
+    (sources : List Source) (hcl : RunSpec.CleanIO sources)
+    (hvals : ∀ ctx ∈ RunSpec.ctxsOfSources (Fix.outCfg jo sep) sources 0, Printable (jo.getD {}) ctx.input) :
+    (run orc (Fix.outCfg jo sep) [⟨none, cleanInput (run orc (Fix.outCfg jo sep) sources {} {}).stdout⟩] {} {}).stdout
+      = (run orc (Fix.outCfg jo sep) sources {} {}).stdout :=
+  Fix.fixpoint_sources orc jo sep hsep hne sources hcl hvals
 
 end Jawk.C02
